@@ -14,7 +14,13 @@ import (
 
 // Plan derives the canonical plan string of a type. Aliases are transparent; a reference to a
 // record is record:<Name>(<plans of the type arguments>); type parameters are param:<T>.
-func Plan(env *model.Env, t *model.Type) string {
+func Plan(env *model.Env, t *model.Type) string { return plan(env, t, false) }
+
+// JsonPlan is Plan with flags kept apart from enums (flags(prim:<base>)): the two are laid out
+// identically in the binary format but map to different JSON forms.
+func JsonPlan(env *model.Env, t *model.Type) string { return plan(env, t, true) }
+
+func plan(env *model.Env, t *model.Type, js bool) string {
 	if t == nil {
 		return "null"
 	}
@@ -30,29 +36,40 @@ func Plan(env *model.Env, t *model.Type) string {
 		}
 		switch d.Kind {
 		case model.DAlias:
-			return Plan(env, model.Subst(d.Type, model.Bind(d, t.Args)))
+			return plan(env, model.Subst(d.Type, model.Bind(d, t.Args)), js)
 		case model.DEnum, model.DFlags:
+			if js {
+				// the JSON form of an enum/flags value does not depend on size vs uint64
+				b := d.EffectiveBase()
+				if b == "size" {
+					b = "uint64"
+				}
+				if d.Kind == model.DFlags {
+					return "flags(prim:" + b + ")"
+				}
+				return "enum(prim:" + b + ")"
+			}
 			return "enum(prim:" + d.EffectiveBase() + ")"
 		case model.DRecord:
 			var as []string
 			for _, a := range t.Args {
-				as = append(as, Plan(env, a))
+				as = append(as, plan(env, a, js))
 			}
 			return "record:" + d.Name + "(" + strings.Join(as, ",") + ")"
 		}
 	case model.KOptional:
-		return "optional(" + Plan(env, t.Elem) + ")"
+		return "optional(" + plan(env, t.Elem, js) + ")"
 	case model.KUnion:
 		var cs []string
 		for _, c := range t.Cases {
-			cs = append(cs, Plan(env, c))
+			cs = append(cs, plan(env, c, js))
 		}
 		return "union(" + strings.Join(cs, ",") + ")"
 	case model.KVector:
 		if t.Len != nil {
-			return fmt.Sprintf("fixedvector(%s,%d)", Plan(env, t.Elem), *t.Len)
+			return fmt.Sprintf("fixedvector(%s,%d)", plan(env, t.Elem, js), *t.Len)
 		}
-		return "vector(" + Plan(env, t.Elem) + ")"
+		return "vector(" + plan(env, t.Elem, js) + ")"
 	case model.KArray:
 		switch {
 		case t.IsFixedArray():
@@ -60,16 +77,16 @@ func Plan(env *model.Env, t *model.Type) string {
 			for _, d := range t.Dims {
 				ds = append(ds, fmt.Sprint(*d.Len))
 			}
-			return "fixedarray(" + Plan(env, t.Elem) + ",[" + strings.Join(ds, " ") + "])"
+			return "fixedarray(" + plan(env, t.Elem, js) + ",[" + strings.Join(ds, " ") + "])"
 		case t.HasDims:
-			return fmt.Sprintf("ndarray(%s,%d)", Plan(env, t.Elem), len(t.Dims))
+			return fmt.Sprintf("ndarray(%s,%d)", plan(env, t.Elem, js), len(t.Dims))
 		default:
-			return "dynarray(" + Plan(env, t.Elem) + ")"
+			return "dynarray(" + plan(env, t.Elem, js) + ")"
 		}
 	case model.KMap:
-		return "map(" + Plan(env, t.Key) + "," + Plan(env, t.Elem) + ")"
+		return "map(" + plan(env, t.Key, js) + "," + plan(env, t.Elem, js) + ")"
 	case model.KStream:
-		return "stream(" + Plan(env, t.Elem) + ")"
+		return "stream(" + plan(env, t.Elem, js) + ")"
 	}
 	return "?"
 }
